@@ -1234,7 +1234,7 @@ func genC10(g *G, sc *Scenario, tier string, seed uint64) {
 		par = 1
 		tr := map[string]any{"Type": "HttpTransform", "Url": "http://xf.sim/transform?v=" + variant, "SupportContext": g.P(0.4), "TimeOut": 2.0}
 		cfg = jobConfig("job1", map[string]any{"Type": "DatasetSource", "Name": "srcA"}, map[string]any{"Type": "DatasetSink", "Name": "sink"}, tr, jobType, batch)
-		cfg["_variant"], cfg["_parallelism"] = variant, par
+		cfg["_variant"], cfg["_parallelism"], cfg["_http"] = variant, par, true
 		if g.P(0.4) {
 			// the runs are started by the job's cron trigger, which has a log error handler: transform and sink
 			// are wrapped by the handler's machinery
@@ -1243,6 +1243,12 @@ func genC10(g *G, sc *Scenario, tier string, seed uint64) {
 			cfg["triggers"] = []any{map[string]any{"triggerType": "cron", "jobType": jobType, "schedule": "@every 10m",
 				"onError": []any{map[string]any{"errorHandler": "log", "maxItems": float64(g.PickInt([]int{0, 1, 5}))}}}}
 		}
+	}
+	if !viaHTTP && jobType == "incremental" && g.P(0.12) {
+		// the job reads srcA through a proxy dataset whose remote returns all it has, whatever limit it is asked for
+		sc.Datasets = append(sc.Datasets, "proxyP")
+		cfg["source"] = map[string]any{"Type": "DatasetSource", "Name": "proxyP"}
+		cfg["_src"] = "srcA"
 	}
 	sc.Ops = append(sc.Ops, Op{K: "addJob", M: cfg})
 	mk := func(i int) Ent {
